@@ -117,16 +117,16 @@ pub fn dyn_ref_json<H: Header>(ctx: &Ctx, r: &DynSizedStructure<H>) -> Value {
 fn ref_from_slice<H: Header + 'static>(ctx: &Ctx) -> Value {
     match DynSizedStructure::<H>::ref_from_slice(ctx.slice()) {
         Ok(r) => out::ok(dyn_ref_json(ctx, r)),
-        Err(e) => out::err(&format!("{e:?}")),
+        Err(e) => out::err_of(&e),
     }
 }
 
 fn ref_from_bytes<H: Header + 'static>(ctx: &Ctx) -> Value {
     match BytesRef::<H>::try_from(ctx.slice()) {
-        Err(e) => out::err(&format!("{e:?}")),
+        Err(e) => out::err_of(&e),
         Ok(b) => match DynSizedStructure::<H>::ref_from_bytes(b) {
             Ok(r) => out::ok(dyn_ref_json(ctx, r)),
-            Err(e) => out::err(&format!("{e:?}")),
+            Err(e) => out::err_of(&e),
         },
     }
 }
@@ -134,14 +134,14 @@ fn ref_from_bytes<H: Header + 'static>(ctx: &Ctx) -> Value {
 fn bytes_ref<H: Header + 'static>(ctx: &Ctx) -> Value {
     match BytesRef::<H>::try_from(ctx.slice()) {
         Ok(r) => out::ok(json!({"at": ctx.off(r.as_ptr()), "len": out::num(r.len())})),
-        Err(e) => out::err(&format!("{e:?}")),
+        Err(e) => out::err_of(&e),
     }
 }
 
 #[cfg(feature = "builder")]
 fn clone_ref<H: Header + 'static>(ctx: &Ctx) -> Value {
     match DynSizedStructure::<H>::ref_from_slice(ctx.slice()) {
-        Err(e) => out::err(&format!("{e:?}")),
+        Err(e) => out::err_of(&e),
         Ok(r) => {
             let b = multiboot2_common::clone_dyn(r);
             let raw = unsafe { std::slice::from_raw_parts((&*b as *const DynSizedStructure<H>).cast::<u8>(), size_of_val(&*b)) };
